@@ -498,6 +498,53 @@ R.add('L13.2', l132, [{}], replay='GENERIC',
       expect=['an instance decodes to an instance of its own class', 'instances nested in a list keep their classes'],
       bounds='one base class with two subclasses, 6 orders of first use; field values symbolic')
 
+
+# ------------------------------------------------------------------ L13.3 collection size limit
+def l133(kind, lim):
+    """collections larger than MAX_ARRAY_LENGTH are refused, collections up to it round-trip.  The encoder and decoder
+    read the module constant at run time; the harness lowers it to `lim` (production: 16384) so that sizes around the
+    limit can be unrolled."""
+    saved = ser.MAX_ARRAY_LENGTH
+    ser.MAX_ARRAY_LENGTH = lim
+    try:
+        n = lim - 1 + choose(3, 'size_offset')                 # lim-1, lim, lim+1
+        elems = [symint('e%d' % i, -2 ** 63, 2 ** 63 - 1) for i in range(n)]
+        if kind != 'list':
+            for i in range(n):
+                for j in range(i):
+                    assume(elems[i] != elems[j])               # n distinct members / keys
+        if kind == 'list':
+            v = list(elems)
+        elif kind == 'set':
+            v = SxSet(elems) if core._rp() is None else set(elems)
+        else:
+            v = SxDict([(x, 7) for x in elems]) if core._rp() is None else {x: 7 for x in elems}
+        stream = BytesIO()
+        try:
+            ser.serialize_value(stream, v)
+            refused = False
+        except Exception:
+            refused = True
+        check(refused == (n > lim), 'a collection is refused exactly when it has more than MAX_ARRAY_LENGTH members', kind=kind, n=n)
+        if not refused:
+            rd = BytesIO(stream.getvalue())
+            try:
+                w = Serializable.loadb(rd)
+            except Exception as ex:
+                core.fail('decoding a produced encoding raised', kind=kind, n=n, error=type(ex).__name__)
+            check(deq(v, w), 'a collection of up to MAX_ARRAY_LENGTH members round-trips', kind=kind, n=n)
+    finally:
+        ser.MAX_ARRAY_LENGTH = saved
+
+
+R.add('L13.3', l133, lambda tier: [dict(kind=k, lim=l) for k in ('list', 'set', 'dict') for l in ((2,) if tier == 'quick' else (2, 4))],
+      replay='GENERIC',
+      desc='list / set / dict with MAX_ARRAY_LENGTH-1, MAX_ARRAY_LENGTH, MAX_ARRAY_LENGTH+1 members (constant lowered to 2 / 4 for the '
+           'unrolling): refused <=> over the limit, otherwise round trip',
+      expect=['a collection is refused exactly when it has more than MAX_ARRAY_LENGTH members',
+              'a collection of up to MAX_ARRAY_LENGTH members round-trips'],
+      bounds='MAX_ARRAY_LENGTH set to 2 (thorough also 4) instead of 16384; members arbitrary distinct 64-bit ints')
+
 import sys as _sys  # noqa: E402
 from .common import generic_replay  # noqa: E402
 for _l in R.lemmas.values():
